@@ -16,7 +16,7 @@ func init() { props["C15"] = runC15 }
 type c15Aux struct {
 	rtts   []int64
 	age    map[int64]int // samples since the last occurrence of each RTT value (0 = the latest sample)
-	maxEst int // largest estimate since the baseline last increased (Vegas staleness bound)
+	maxEst int           // largest estimate since the baseline last increased (Vegas staleness bound)
 	lastB  int64
 }
 
